@@ -98,6 +98,20 @@ func (e *Enc) encodeCall(c *ssa.CallCommon, instr ssa.Instruction, pos token.Pos
 		_ = mc
 	}
 	sig := c.Signature()
+	if allowed, ok := e.p.Contracts.Callers[name]; ok {
+		okc := false
+		for _, a := range allowed {
+			if a == e.name {
+				okc = true
+			}
+		}
+		if !okc {
+			e.oblige("callers", name, pos, False, e.p.Contracts.CallersProps[name], "only "+strings.Join(allowed, ", ")+" may call "+name)
+		}
+	}
+	if kind == "iface" && fileEffect[name] {
+		e.effectObligation(name, pos)
+	}
 	// precise models of a few library functions
 	if kind == "extern" {
 		if m, ok := externModels[name]; ok {
